@@ -136,18 +136,15 @@ def _drive(chk, graph, procs, names, tag, progs, pre):
     wit, _ = drv.run_schedule(wit_prog, procs, [["begin", procs[0]], ["begin", procs[1]]])
     dev = wit[-1]["post"]["status"][procs[1]] == "error"
 
-    def batch(sel, carve):
-        return {"names": names, "procs": procs, "dev": dev, "carve": carve,
+    def batch(sel):
+        return {"names": names, "procs": procs, "dev": dev,
                 "traces": [{"prog": p, "events": tr} for p, tr, same in traces if sel(same)]}
 
-    with ThreadPoolExecutor(max_workers=3) as ex:
-        f1 = ex.submit(tracecheck.observe, chk, "obs/Obs_C22.tla", "obs/Obs_C22.cfg", batch(lambda s: True, False),
-                       "obs_" + tag)
-        f2 = ex.submit(tracecheck.observe, chk, "obs/Obs_C22.tla", "obs/Obs_C22.cfg", batch(lambda s: True, True),
-                       "obs_carved_" + tag)
+    with ThreadPoolExecutor(max_workers=2) as ex:
+        f1 = ex.submit(tracecheck.observe, chk, "obs/Obs_C22.tla", "obs/Obs_C22.cfg", batch(lambda s: True), "obs_" + tag)
         f3 = ex.submit(tracecheck.conform, chk, "sync/TraceResources.tla", "sync/TraceResources.cfg",
-                       batch(lambda s: not s, False), "trace_" + tag)
-        (v1, _), (v2, _), (reached, res) = f1.result(), f2.result(), f3.result()
+                       batch(lambda s: not s), "trace_" + tag)
+        (v1, _), (reached, res) = f1.result(), f3.result()
     if res.violated:
         chk.note("conformance: model invariant %s fails on a step of a real trace (%s)" % (res.violated, tag))
     total = nontriv = matched = 0
@@ -155,8 +152,8 @@ def _drive(chk, graph, procs, names, tag, progs, pre):
     ci = 0
     for i, (prog, tr, same) in enumerate(traces, 1):
         total += 1
-        for v in (v1[i], v2[i]):
-            clause, l, cause = v[0], v[1], (v[2] if len(v) > 2 else "-")
+        v = v1[i]        # (clause, l, cause, clause_carved, l_carved, cause_carved)
+        for clause, l, cause in {(v[0], v[1], v[2]), (v[3], v[4], v[5])}:
             if clause == "ok":
                 continue
             key = "obs:%s:%s" % (clause, cause) if cause != "-" else "obs:" + clause
